@@ -261,9 +261,9 @@ func ZZ_C01_filterMap() {
 	nNodes := 2
 	maxPods := 2
 	if nondet.Thorough() {
-		// (three pods over three nodes are two million paths and 20 minutes: the thorough tier has
-		// three pods — triple occupancy of a node — over two nodes)
-		nNodes, maxPods = 2, 3
+		// (three pods, over two or three nodes, exceed the cap of two million paths: the thorough tier has two
+		// pods over three nodes; triple occupancy of a node is covered by ZZ_C01_threePodsOnOneNode)
+		nNodes, maxPods = 3, 2
 	}
 	tpl := zzTplAttr{}
 	rs := zzTemplateFor(tpl)
